@@ -457,18 +457,18 @@ class RedlineEngine:
         return ins
 
     def track_delete_run(self, run: Run):
-        del_tag = self._create_track_change_tag("w:del")
-        new_run = create_element("w:r")
-        if run._r.rPr is not None:
-            new_run.append(deepcopy(run._r.rPr))
-        text_content = run.text
-        del_text = create_element("w:delText")
-        self._set_text_content(del_text, text_content)
-        new_run.append(del_text)
-        del_tag.append(new_run)
         parent = run._r.getparent()
         if parent is None:
             return None
+        del_tag = self._create_track_change_tag("w:del")
+        # Keep the run as it is (properties, tabs, breaks, drawings); only its text nodes
+        # become deleted text, so that rejecting the deletion restores the original run.
+        new_run = deepcopy(run._r)
+        for t in new_run.findall(qn("w:t")):
+            t.tag = qn("w:delText")
+            if (t.text or "").strip() != (t.text or ""):
+                create_attribute(t, "xml:space", "preserve")
+        del_tag.append(new_run)
         parent.replace(run._r, del_tag)
         return del_tag
 
